@@ -1479,7 +1479,7 @@ package machine
 // A machine rebuilt with Import has the exported ticks, active states by tick
 // parity, the exported state order and a machine tick one higher.
 //@ func (m *Machine) Import(data *Serialized) (err error)
-//@   props C17 C12 C20
+//@   props C17 C12 C20 C01
 //@   abstracts the MachineRestored mutation goes through the public API
 //@   requires nn:    data != nil && !isnil(m.clock)
 //@   requires locks: unlocked(m.activeStatesMx) && unlocked(m.queueMx) && unlocked(m.schemaMx) && unlocked(m.tracersMx) && unlocked(m.logEntriesLock)
